@@ -469,6 +469,15 @@ func genDecimalDouble(rt *rapid.T) string {
 	}
 }
 
+// extremeDecimal draws a decimal literal whose magnitude is beyond the range of double in either
+// direction: LLVM reads it as infinity or zero, which every kind represents exactly.
+func extremeDecimal(rt *rapid.T) string {
+	sign := rapid.SampledFrom([]string{"", "-"}).Draw(rt, "xsign")
+	m := fixDot(rapid.StringMatching(`[1-9]\.[0-9]{0,6}`).Draw(rt, "xm"))
+	e := rapid.SampledFrom([]string{"400", "999", "99999", "99999999999", "-400", "-999", "-99999", "-99999999999"}).Draw(rt, "xexp")
+	return sign + m + "e" + e
+}
+
 func TestRandomPatterns(t *testing.T) {
 	const test = "RandomPatterns"
 	hx.Rule(test, "rapid (kind, bit pattern, spelling) triples for all six kinds plus arbitrary decimal strings for double (long, scientific, halfway between adjacent doubles, subnormal and overflow range): printed literal denotes the identical bit pattern under the reference reading; non-trivial = not ±0/±1")
@@ -478,6 +487,9 @@ func TestRandomPatterns(t *testing.T) {
 		if k.Name == "double" && rapid.IntRange(0, 2).Draw(rt, "decimal") == 0 {
 			lit = genDecimalDouble(rt)
 			hx.Hist("spelling/random-decimal")
+		} else if (k.Name == "half" || k.Name == "float" || k.Name == "double") && rapid.IntRange(0, 40).Draw(rt, "extreme") == 0 {
+			lit = extremeDecimal(rt)
+			hx.Hist("spelling/decimal-beyond-double-range")
 		} else {
 			p := genPat(rt, k)
 			sp := spellingsOf(k, p, rapid.IntRange(0, 59).Draw(rt, "noise"))
